@@ -30,8 +30,8 @@ class KDSemsegRandomResize(KDStochasticTransform):
         max_short_edge = min(suggested_height, suggested_width)
         smallest_scale = min(max_long_edge / max(h, w), max_short_edge / min(h, w))
 
-        new_height = round(h * smallest_scale)
-        new_width = round(w * smallest_scale)
+        new_height = max(1, round(h * smallest_scale))
+        new_width = max(1, round(w * smallest_scale))
         new_size = new_height, new_width
 
         x = resize(x, size=new_size, interpolation=self.interpolation)
